@@ -188,7 +188,7 @@ def evaluate(model, build):
         bad.append('derivative(x)(d) has %d entries, A(x) has %d'
                    % (len(got), len(want)))
     for i, (g, w) in enumerate(zip(got, want)):
-        if not PA.equal_exact(g, w, WIT):
+        if not PA.same(g, w, WIT):
             bad.append('derivative(x)(d)[%d] is %s, the differential of '
                        'A(x)[%d] = %s in direction d is %s'
                        % (i, _s(g), i, _s(ys[i]), _s(w)))
